@@ -15,6 +15,9 @@ func setupGenerator(converter *config.Converter, n *namer.Namer) (*generator, er
 	var err error
 	lookup := method.NewIndex[generatedMethod]()
 	for _, cMethod := range converter.Methods {
+		// the name of a generated helper must not be the name of a declared
+		// method, function or variable
+		n.Register(cMethod.Name)
 		gen := &generatedMethod{
 			Method:   cMethod,
 			Dirty:    true,
